@@ -3,7 +3,7 @@
 From Coq Require Import String.
 From Coq Require Import List Strings.Byte NArith ZArith Bool.
 Require Import Bytes Show Tables Codec Norm CleanPath Chain.
-Require Serve Rot Ser ResetLang ResetModel ResetClass Range UriSplit TrailerKeys Rd Chunk HeaderBlock RespFrame Pool Router Bind HzRouter Shutdown Radix BodyStream HeaderScan ReqHead LinkBuf OutBuf Cookie RespHead Uri.
+Require Serve Rot Ser ResetLang ResetModel ResetClass Range UriSplit TrailerKeys Rd Chunk HeaderBlock RespFrame Pool Router Bind HzRouter Shutdown Radix BodyStream HeaderScan ReqHead LinkBuf OutBuf Cookie RespHead Uri Prefetch.
 Import ListNotations.
 
 Definition arg (args : list bs) (i : nat) : bs := nth i args [].
@@ -60,6 +60,7 @@ Definition entries : list (bs * (list bs -> bs)) := [
   (B "cookie_parse_script", fun a => Cookie.cookie_parse_script a);
   (B "resp_head", fun a => RespHead.resp_head a);
   (B "uri_parse_script", fun a => Uri.uri_parse_script a);
+  (B "prefetch_script", fun a => Prefetch.prefetch_script a);
   (B "pool_script", fun a => Pool.pool_script a);
   (B "bind_one", fun a => Bind.bind_one a);
   (B "hz_router", fun a => HzRouter.hz_router a);
